@@ -260,6 +260,33 @@ def originalElemOffset (a m : Arr) (m_offset : Nat) (idx : List Nat) : Int :=
 def mappedBytes (r : Reduced) (itemsize : Nat) : Option Int :=
   r.total_buffer_len.map (· * itemsize)
 
+/-! ### the candidate repair `fixes/F24-F26-memmap-view-reduction.diff` (NOT what /repo has; the driver and the
+correspondence use the definitions above). `order` is taken from the VIEW; a strided view is rebuilt over a BYTE
+buffer `[a_start, a_end)`, element `[0,…,0]` being found `first` bytes into it. -/
+
+def reduceMemmapBackedRepaired (a m : Arr) (m_offset : Nat) (a_c a_f : Bool) : Reduced :=
+  let (a_start, a_end) := byteBounds a
+  let m_start := (byteBounds m).1
+  let offset := a_start - m_start + m_offset
+  let order := if a_f && !a_c then Order.F else Order.C
+  if a_f || a_c then ⟨offset, order, a.shape, none, none⟩
+  else ⟨offset, order, a.shape, some a.strides, some ((a_end - a_start) / a.itemsize)⟩
+
+/-- `first = sum((n - 1) * -s for n, s in zip(shape, strides) if s < 0)`. -/
+def firstElem (shape : List Nat) (strides : List Int) : Int := - lowAdj shape strides
+
+/-- `last = sum((n - 1) * s for … if s > 0)`; the byte buffer has `first + last + itemsize` bytes. -/
+def repairedMappedBytes (shape : List Nat) (strides : List Int) (itemsize : Nat) : Int :=
+  firstElem shape strides + highAdj shape strides + itemsize
+
+def rebuiltElemOffsetRepaired (r : Reduced) (itemsize : Nat) (idx : List Nat) : Int :=
+  match r.strides with
+  | none =>
+    r.offset + dot (match r.order with
+      | .C => cStrides r.shape itemsize
+      | .F => fStrides r.shape itemsize) idx
+  | some st => r.offset + firstElem r.shape st + dot st idx
+
 /-! ### `ArrayMemmapForwardReducer.__call__`: what happens to an array argument sent to a process worker -/
 
 inductive Forward
